@@ -70,3 +70,17 @@ pub fn splice_old_kind(len: usize, start: usize, end: usize, f: usize, b: usize,
 }
 pub fn splice_old_pos(len: usize, start: usize, end: usize, k: usize, w: usize) -> usize { if w < start { w } else { w - (end - start) + k } }
 pub fn splice_new_pos(start: usize, r: usize) -> usize { start + r }
+
+// ---- clone() ----------------------------------------------------------------------------------
+pub fn clone_len(len: usize) -> usize { len }
+pub fn clone_src_pos(len: usize, w: usize) -> usize { w }
+pub fn clone_dst_pos(len: usize, w: usize) -> usize { w }
+// the target is expanded only when its own capacity cannot hold the contents
+pub fn clone_needs_expand(len: usize, target_cap: usize) -> bool { target_cap < len }
+
+// ---- capacity management ----------------------------------------------------------------------
+pub fn reserve_ok(len: usize, cap: usize, n: usize, cap2: usize) -> bool { cap2 >= len + n && (cap < len + n || cap2 == cap) }
+pub fn reserve_must_grow(len: usize, cap: usize, n: usize) -> bool { cap < len + n }
+pub fn shrink_bound(len: usize, m: usize) -> usize { if len > m { len } else { m } }
+// exact-resizing backends (Heap, GhostMem): capacity ends at min(cap, max(len, m))
+pub fn shrink_cap(len: usize, cap: usize, m: usize) -> usize { if cap < shrink_bound(len, m) { cap } else { shrink_bound(len, m) } }
